@@ -16,6 +16,7 @@ type vProxyCfg struct {
 	validate  bool
 	v6        bool // peer is a 16-byte address (otherwise 4 bytes)
 	mapped    bool // 16-byte v4-mapped peer (::ffff:a.b.c.d)
+	donor     bool // the Config is taken from another app (App.Config()) whose proxy list differed
 }
 
 var vC10Catalogue = []vProxyCfg{
@@ -34,6 +35,8 @@ var vC10Catalogue = []vProxyCfg{
 	/*12*/ {loopback: true, proxies: []string{"2001:db8::/32"}, v6: true},
 	/*13*/ {linkLocal: true, mapped: true},
 	/*14*/ {proxies: []string{"2001:db8::1"}, v6: true},
+	/*15*/ {donor: true},
+	/*16*/ {donor: true, proxies: []string{"10.0.0.0/8"}},
 }
 
 // vIn4 reports whether the 4-byte address a is inside base/bits.
@@ -69,7 +72,7 @@ func vTrusted4(pc *vProxyCfg, a []byte, ci int) bool {
 	switch ci {
 	case 1:
 		t = vOr(t, vIn4(a, 10, 1, 2, 3, 32))
-	case 2, 9:
+	case 2, 9, 16:
 		t = vOr(t, vIn4(a, 10, 0, 0, 0, 8))
 	case 3:
 		t = vOr(t, vOr(vIn4(a, 192, 168, 7, 0, 24), vIn4(a, 8, 8, 8, 8, 32)))
@@ -166,6 +169,13 @@ func VH_C10_trust(caseID int) {
 	pc := &vC10Catalogue[ci]
 	cfg := Config{TrustProxy: true, ProxyHeader: "X-Real-Ip", EnableIPValidation: pc.validate,
 		TrustProxyConfig: TrustProxyConfig{Proxies: pc.proxies, Loopback: pc.loopback, Private: pc.private, LinkLocal: pc.linkLocal}}
+	if pc.donor {
+		// a second application built from the first one's configuration with another proxy list
+		donorCfg := cfg
+		donorCfg.TrustProxyConfig.Proxies = []string{"10.1.2.3", "192.168.7.0/24"}
+		cfg = New(donorCfg).Config()
+		cfg.TrustProxyConfig.Proxies = pc.proxies
+	}
 	app := New(cfg)
 
 	var peer net.IP
